@@ -1885,9 +1885,13 @@ def serialize_graph_into(
             # Skip initializers without constant values
             logger.warning("Initializer '%s' does not have a constant value set.", value.name)
             continue
-        # Make sure the tensor's name is the same as the value's name
-        value.const_value.name = value.name
-        serialize_tensor_into(graph_proto.initializer.add(), from_=value.const_value)
+        tensor_proto = graph_proto.initializer.add()
+        serialize_tensor_into(tensor_proto, from_=value.const_value)
+        # Make sure the serialized tensor carries the value's name. The tensor object
+        # itself is left alone: it may be shared (with a clone of the model, or with an
+        # attribute of a Constant node) and serialization must not alter those.
+        if value.name is not None:
+            tensor_proto.name = value.name
     for node in from_:
         serialize_node_into(
             graph_proto.node.add(), from_=node, model_ir_version=model_ir_version
